@@ -424,6 +424,8 @@ func (d *rtDriver) Run(x *sched.Exec, raw json.RawMessage) json.RawMessage {
 		d.sc = genRoutine(x)
 	}
 	x.OptDouble = true // a grant and a cancellation in one controller step (sched.Exec.Double)
+	// (OptParkUnl stays off: RoutineP reads several logged returns as linearization points; a trial run
+	// with it on raised WaitWrong, CancelNoCause, RerunNoCause and StateLost on the unchanged tree)
 	if x.LogSteps {
 		// X-level trace validation: Routine.tla models the scripted backoff and bounded 7 ms ticks only
 		d.sc.BoConf, d.sc.BigTick = "", false
